@@ -326,8 +326,9 @@ func main() {
 		w.Put(hammer(kind, *hammerN, rng))
 	}
 	for run := 0; run < *runs; run++ {
-		for _, kind := range []string{"nano", "text", "json"} {
-			threshold := []slog.Level{-4, logger.LevelDebug, logger.LevelInfo, logger.LevelWarn, logger.LevelError, -8}[(run+rng.Intn(2)*3)%6]
+		for kindIdx, kind := range []string{"nano", "text", "json"} {
+			// every threshold occurs once per two runs (6 run x handler combinations), rotated by the seed
+			threshold := []slog.Level{-4, logger.LevelWarn, logger.LevelDebug, -8, logger.LevelInfo, logger.LevelError}[(run*3+kindIdx+int(vio.Seed()))%6]
 			d := &dest{log: evlog.New(), kind: kind, dwellNs: int64(20+rng.Intn(200)) * 1000, rng: rand.New(rand.NewSource(rng.Int63()))}
 			if run%2 == 1 {
 				d.failEvery = 3 // some Write calls report an error
